@@ -59,6 +59,8 @@ def absorb(rep, t, st, r, secs, key, replay_fn, describe):
         rep.cov.setdefault('audit_rewrites_reproved', 0)
         rep.cov['audit_rewrites_total'] += a['total']
         rep.cov['audit_rewrites_reproved'] += a['checked']
+        if a.get('unproved'):
+            rep.cov['audit_rewrites_unproved_within_budget'] = rep.cov.get('audit_rewrites_unproved_within_budget', 0) + a['unproved']
         if a['failed']:
             rep.inconclusive('%s: %d simplifier lemma batches not re-proved' % (key, a['failed']))
 
